@@ -9,8 +9,10 @@
  * NULL test. (A loop contract over a symbolic position in a 257-node list did
  * not finish: > 10 min / 20 GB; plain unwinding keeps every pointer concrete.)
  *
- * Two configurations:
- *  DR_N = 257 (proved): count / same_block / delta_fits for every list.
+ * Configurations:
+ *  DR_N = 257 (proved): count for every list; with -DDR_WIT also same_block /
+ *   delta_fits for an arbitrary witness entry (about 5 min of SAT: thorough
+ *   tier; the quick tier has these two in the bounded configuration).
  *  DR_N <= 33, -DDR_BLK (bounded, lists of at most DR_N nodes): additionally
  *   one_block / maximal, which compare the function's byte count with an
  *   independently accumulated one (SAT does not finish that for 257 nodes).
@@ -69,6 +71,7 @@ void harness(void)
 
 	VERIF_ASSERT(c <= SQFS_MAX_DIR_ENT && c <= 256 && c <= n &&
 		     (n == 0 || c >= 1), "C03.dir.run_limits.count");
+#ifdef DR_WIT
 	if (w < c) {
 		sqfs_u32 d = nodes[w].e.inode_num - nodes[0].e.inode_num;
 		sqfs_s16 d16 = (sqfs_s16)(sqfs_u16)d;
@@ -80,6 +83,9 @@ void harness(void)
 			     nodes[w].e.inode_num && d16 != -32768,
 			     "C03.dir.run_limits.delta_fits");
 	}
+	VERIF_COVER(c >= 2 && w == c - 1 &&
+		    nodes[w].e.inode_num < nodes[0].e.inode_num);
+#endif
 #ifdef DR_BLK
 	if (c >= 2)
 		VERIF_ASSERT(pre[c] <= SQFS_META_BLOCK_SIZE,
@@ -103,6 +109,4 @@ void harness(void)
 	VERIF_COVER(c == 1 && n > 1);
 	VERIF_COVER(c == 3 && n == 3);
 	VERIF_COVER(c == 0);
-	VERIF_COVER(c >= 2 && w == c - 1 &&
-		    nodes[w].e.inode_num < nodes[0].e.inode_num);
 }
